@@ -163,7 +163,23 @@ func frontCorr(c *Ctx, stream, text, cleaned string, r parsed) {
 	} else {
 		c.Dist("parser_token_lists_rejected")
 	}
-	c.D.Add("corr:grammar-parser/"+stream, L("parse", L(ptoks...)), want, map[string]any{"dsl": text, "cleaned": cleaned, "antlr_parser_errors": r.ParseErr})
+	nParseErr := len(r.ParseErr)
+	c.D.AddF("corr:grammar-parser/"+stream, L("parse", L(ptoks...)), want, map[string]any{"dsl": text, "cleaned": cleaned, "antlr_parser_errors": r.ParseErr}, func(lean string) bool {
+		// a difference in *acceptance* is a failing input of the property itself, not only a model that no longer
+		// checks: the Go parser and the grammar it is generated from (from which the JS and Java parsers come
+		// too) disagree on whether this text is DSL
+		switch {
+		case nParseErr > 0 && strings.HasPrefix(lean, "(r "):
+			c.OracleFail("grammar:acceptance/"+stream, map[string]any{"dsl": text, "cleaned": cleaned, "antlr_parser_errors": r.ParseErr},
+				"OpenFGAParser.g4 derives this token sequence (the grammar interpreter finds a parse) but the generated Go parser reports a syntax error", trunc(lean, 300))
+			return true
+		case nParseErr == 0 && lean == "(syntax-error)":
+			c.OracleFail("grammar:acceptance/"+stream, map[string]any{"dsl": text, "cleaned": cleaned},
+				"the generated Go parser accepts this text without a syntax error but OpenFGAParser.g4 does not derive its token sequence", trunc(want, 300))
+			return true
+		}
+		return false
+	})
 }
 func childIndex(ctx antlr.ParserRuleContext, target interface{}) int {
 	for i, c := range ctx.GetChildren() {
